@@ -253,6 +253,11 @@ func TestVerif_C20_parse(t *testing.T) {
 			}
 		case k < 6:
 			raw, kind = c20Mutate(r, c20GenHeader(r, false).raw), "damaged"
+			if r.Intn(3) == 0 {
+				var way string
+				raw, way = c20DamageParam(r, c20GenHeader(r, false).raw)
+				count("damage:" + way)
+			}
 		case k == 6:
 			raw, kind = verifh.Pick(r, c20Junk), "junk"
 		default:
@@ -304,7 +309,8 @@ func TestVerif_C20_create(t *testing.T) {
 	n := verifh.N(12000, 250000)
 	for i := 0; i < n || !c20All(cnt, must); i++ {
 		if i > 20*n {
-			t.Fatalf("declared buckets not reached: %v", cnt)
+			t.Errorf("declared buckets not reached: %v", cnt) // the collected cases are judged below: they hold the failing inputs
+			break
 		}
 		var lines []string
 		var gen *c20Chal
@@ -327,7 +333,13 @@ func TestVerif_C20_create(t *testing.T) {
 			g := c20GenHeader(r, false)
 			lines = append([]string(nil), g.lines...)
 			x := r.Intn(len(lines))
-			lines[x] = c20Mutate(r, lines[x])
+			if r.Intn(3) == 0 {
+				var way string
+				lines[x], way = c20DamageParam(r, lines[x])
+				count("damage:" + way)
+			} else {
+				lines[x] = c20Mutate(r, lines[x])
+			}
 			count("damaged")
 		case k == 15:
 			count("no-header")
